@@ -6,6 +6,7 @@ From Coq Require Extraction ExtrOcamlBasic.
 From Coq Require Import ZArith NArith List.
 From Morlock.Model Require Import Score Bits Attacks Move Position Zobrist Board Abs Search TT SearchBoard Fen Engine EngineSpec UciSeq Queries Driver.
 From Morlock.Spec Require Chess Game Minimax.
+From Morlock.Model Require Engines.
 Extraction Language OCaml.
 Extraction "model.ml"
   Score.less Score.negate Score.inc Score.dec Score.smax Score.smin Score.mate_distance Score.go_eq
@@ -37,4 +38,7 @@ Extraction "model.ml"
   EngineSpec.setup EngineSpec.smove_of_str EngineSpec.gstate_of_fen EngineSpec.wf_value
   UciSeq.go_depth UciSeq.u_position UciSeq.iterate
   Driver.obs_ok Driver.obs_counts_ok
-  Queries.find_capture Queries.find_pins Queries.spec_capturers Queries.spec_pins.
+  Queries.find_capture Queries.find_pins Queries.spec_capturers Queries.spec_pins
+  Engines.material_pos Engines.turo_material_eval Engines.bern_material Engines.bern_mobility Engines.bern_control
+  Engines.bern_king_defense Engines.bern_evaluate Engines.find_plausible_moves Engines.considerable_after
+  Engines.mirror_pos.
